@@ -292,6 +292,8 @@ def run_case(case):
         src_ino = {}
         last_inst = {}
         lost_race = set()
+        own_inc = {}            # (actor, pkg) -> inode of the package directory this actor installed
+        collected_own = set()   # (actor, pkg): its own installation was collected before it linked
         link_inc = {}
         last_use = {}
         gc_state = {}           # actor -> snapshot taken when it got the store lock
@@ -369,6 +371,7 @@ def run_case(case):
                 if ok:
                     last_inst[actor.name] = [kk for kk in range(npk)
                                              if cur[2][1].endswith(_store_path(root, kk)[len(root):])][0]
+                    own_inc[(actor.name, last_inst[actor.name])] = src_ino.get(actor.name)
             if actor.state == "ready":
                 nxt = actor.cur
                 if nxt[1] == "os.rename" and len(nxt[2]) >= 2 and isinstance(nxt[2][1], str) and nxt[2][1].endswith("-3"):
@@ -424,6 +427,16 @@ def run_case(case):
             if op == "os.rename" and len(cur[2]) >= 2 and isinstance(cur[2][0], str) and cur[2][0].endswith("-3"):
                 # a package is moved away (to the attic of a gc)
                 k = [kk for kk in range(npk) if cur[2][0].endswith(_store_path(root, kk)[len(root):])]
+                if k and isinstance(cur[2][1], str):
+                    # whose installation was that, and had the installer linked its workspace yet?
+                    try:
+                        gone = os.stat(os.path.join(root, cur[2][1][3:])).st_ino
+                    except OSError:
+                        gone = None
+                    for (an, kk), ino in own_inc.items():
+                        if kk == k[0] and ino is not None and ino == gone and link_inc.get((an, kk)) != ino:
+                            collected_own.add((an, kk))
+                            stats.inc("probe_installed_package_collected_before_link")
                 st = gc_state.get(actor.name)
                 if k and st is not None and "pkgs" in st:
                     k = k[0]
@@ -441,6 +454,10 @@ def run_case(case):
                         if unreg and all((n, k) in lost_race for n in unreg) and len(unreg) == len(still):
                             why = ("unregistered link(s) %s: workspace linked after installSharedPackage returned "
                                    "wasInstalled=False (lost install race) without being added to pkg.json users" % unreg)
+                        elif unreg and all((n, k) in collected_own for n in unreg) and len(unreg) == len(still):
+                            why = ("unregistered link(s) %s: the package this project installed was collected before its workspace "
+                                   "link was created (links are made outside any lock), another project re-installed the Build-Id "
+                                   "and the link now points to a package that does not list the project as user" % unreg)
                         else:
                             why = "registered users %s" % [n for n in still if n not in unreg]
                         box["v"] = {"kind": "gc-collected-used-package",
